@@ -627,19 +627,7 @@ func (c *c21Client) rawWrite() *Violation {
 		return d.agree("DeleteBucket("+b+")", want, err)
 	case kind <= 3: // delete
 		b, k := names[g.Int(len(names))], d.pickKey(g)
-		op := fmt.Sprintf("DeleteObject(%s/%s)", b, k)
-		d.log("%s", op)
-		res, err := d.St.DeleteObject(d.ctx, bn(b), ok(k), nil)
-		mres, want := d.M.DeleteObject(b, k, nil, nil)
-		if v := d.agree(op, want, err); v != nil || err != nil {
-			return v
-		}
-		d.Mutations++
-		if mres.Marker {
-			return d.bindVersion(op, b, k, mres.VersionID, res.VersionID)
-		}
-		c.asyncAccepted++
-		return nil
+		return c.rawDelete(b, k)
 	case kind == 4: // multi-delete
 		b := names[g.Int(len(names))]
 		var entries []storage.DeleteObjectsInputEntry
@@ -671,24 +659,152 @@ func (c *c21Client) rawWrite() *Violation {
 		return nil
 	default: // put with options
 		b, k := names[g.Int(len(names))], d.pickKey(g)
+		return c.rawPut(b, k)
+	}
+}
+
+// rawDelete issues a plain DeleteObject of one key without any read-back.
+func (c *c21Client) rawDelete(b, k string) *Violation {
+	d := c.d
+	op := fmt.Sprintf("DeleteObject(%s/%s)", b, k)
+	d.log("%s", op)
+	res, err := d.St.DeleteObject(d.ctx, bn(b), ok(k), nil)
+	mres, want := d.M.DeleteObject(b, k, nil, nil)
+	if v := d.agree(op, want, err); v != nil || err != nil {
+		return v
+	}
+	d.Mutations++
+	if mres.Marker {
+		return d.bindVersion(op, b, k, mres.VersionID, res.VersionID)
+	}
+	c.asyncAccepted++
+	return nil
+}
+
+// rawPut issues a plain PutObject (content type, metadata, tags, storage class)
+// of one key without any read-back.
+func (c *c21Client) rawPut(b, k string) *Violation {
+	d, g := c.d, c.g
+	body := d.body(d.bodySize(g), g)
+	a, ct, md, tags, class := d.writeArgs(g)
+	var opts *storage.PutObjectOptions
+	if md != nil || tags != nil || class != nil {
+		opts = &storage.PutObjectOptions{Tags: tags, Metadata: md, StorageClass: class}
+	}
+	op := fmt.Sprintf("PutObject(%s/%s,%dB,ct=%s,meta=%v,tags=%v,class=%s)", b, k, len(body), strp(ct), md != nil, tags, strp(class))
+	d.log("%s", op)
+	c.putBudget--
+	res, err := d.St.PutObject(d.ctx, bn(b), ok(k), ct, d.reader(body, g), nil, opts)
+	mv, want := d.M.PutObject(b, k, body, a, model.Cond{})
+	if v := d.agree(op, want, err); v != nil || err != nil {
+		return v
+	}
+	d.Mutations++
+	c.asyncAccepted++
+	return d.bindVersion(op, b, k, mv, res.VersionID)
+}
+
+// pendingOf counts the outbox entries of one key.
+func (c *c21Client) pendingOf(b, k string) int {
+	n, err := c.sys.obW.QueryInt(context.Background(), "SELECT COUNT(*) FROM storage_outbox_entries WHERE outbox_id = ? AND bucket = ? AND key = ?", c21OutboxID, b, k)
+	if err != nil {
+		return -1
+	}
+	return int(n)
+}
+
+// syncBehindQueue is one episode on one key: 1-2 plain puts/deletes are
+// accepted (queued, no read-back) and are immediately followed by a write of
+// the same key that the outbox cannot queue - a conditional put
+// (If-None-Match:*, If-Match with the ETag of the last acknowledged put, with
+// the ETag observed before the episode, or *) or a put after versioning was
+// enabled for the bucket. Its outcome must be the one the acceptance order
+// gives (the model applies every accepted write at once), whatever the worker
+// has flushed by then; in half of the episodes nothing reads the key
+// afterwards, so a queued entry replayed after the synchronous write shows in
+// a later read or in the drained state.
+func (c *c21Client) syncBehindQueue() *Violation {
+	d, g, rc := c.d, c.g, c.sys.rc
+	names := d.M.BucketNames()
+	b, k := names[g.Int(len(names))], d.pickKey(g)
+	var stale *string // what the client knew about the key before the episode
+	if cur := d.M.Buckets[b].Current(k); cur != nil {
+		stale = sp(cur.ETag())
+	}
+	for i, n := 0, 1+g.Int(2); i < n; i++ {
+		if c.putBudget > 0 && g.Chance(2, 3) {
+			if v := c.guarded("write", func() *Violation { return c.rawPut(b, k) }); v != nil {
+				return v
+			}
+		} else if v := c.guarded("write", func() *Violation { return c.rawDelete(b, k) }); v != nil {
+			return v
+		}
+	}
+	var cond model.Cond
+	variant := "if-none-match"
+	switch g.Int(6) {
+	case 0, 1:
+		cond.IfNoneMatchStar = true
+	case 2:
+		variant = "if-match-acknowledged-etag"
+		if cur := d.M.Buckets[b].Current(k); cur != nil {
+			cond.IfMatch = sp(cur.ETag())
+		} else {
+			cond.IfMatch = sp("*")
+		}
+	case 3:
+		variant = "if-match-earlier-etag"
+		cond.IfMatch = stale
+		if stale == nil {
+			cond.IfMatch = sp("\"00000000000000000000000000000000\"")
+		}
+	case 4:
+		variant = "if-match-any"
+		cond.IfMatch = sp("*")
+	default:
+		variant = "versioning-enabled"
+		if d.M.Buckets[b].Versioning != "Enabled" {
+			if v := c.guarded("PutBucketVersioning", func() *Violation {
+				d.log("PutBucketVersioning(%s,Enabled)", b)
+				st := storage.BucketVersioningStatusEnabled
+				err := d.St.PutBucketVersioningConfiguration(d.ctx, bn(b), &storage.BucketVersioningConfiguration{Status: &st})
+				return d.agree("PutBucketVersioning("+b+")", d.M.SetVersioning(b, "Enabled"), err)
+			}); v != nil {
+				return v
+			}
+		}
+	}
+	return c.guarded("PutObject", func() *Violation {
+		pend := c.pendingOf(b, k)
 		body := d.body(d.bodySize(g), g)
 		a, ct, md, tags, class := d.writeArgs(g)
 		var opts *storage.PutObjectOptions
-		if md != nil || tags != nil || class != nil {
-			opts = &storage.PutObjectOptions{Tags: tags, Metadata: md, StorageClass: class}
+		if md != nil || tags != nil || class != nil || cond.IfNoneMatchStar || cond.IfMatch != nil {
+			opts = &storage.PutObjectOptions{IfNoneMatchStar: cond.IfNoneMatchStar, IfMatchETag: cond.IfMatch, Tags: tags, Metadata: md, StorageClass: class}
 		}
-		op := fmt.Sprintf("PutObject(%s/%s,%dB,ct=%s,meta=%v,tags=%v,class=%s)", b, k, len(body), strp(ct), md != nil, tags, strp(class))
-		d.log("%s", op)
-		c.putBudget--
+		op := fmt.Sprintf("PutObject(%s/%s,%dB,ct=%s,class=%s,inm=%v,ifm=%s)", b, k, len(body), strp(ct), strp(class), cond.IfNoneMatchStar, strp(cond.IfMatch))
+		d.log("%s [synchronous: %s; %d outbox entries of the key pending]", op, variant, pend)
+		if pend > 0 {
+			rc.Stats.Inc("probe.c21.sync_put_behind_queued_key." + variant)
+		}
 		res, err := d.St.PutObject(d.ctx, bn(b), ok(k), ct, d.reader(body, g), nil, opts)
-		mv, want := d.M.PutObject(b, k, body, a, model.Cond{})
+		mv, want := d.M.PutObject(b, k, body, a, cond)
+		if (want == model.OK) != (err == nil) && !seams.IsInjected(err) {
+			return rc.Fail("ryw", "sync-put-outcome-ignores-accepted-writes:"+variant, "%s: every write accepted before it applied in acceptance order, the request must %s, but the outbox storage returned %v (%d entries of the key were pending when it was issued)", op, map[bool]string{true: "succeed", false: "fail with " + want.String()}[want == model.OK], err, pend)
+		}
 		if v := d.agree(op, want, err); v != nil || err != nil {
 			return v
 		}
 		d.Mutations++
-		c.asyncAccepted++
-		return d.bindVersion(op, b, k, mv, res.VersionID)
-	}
+		if v := d.bindVersion(op, b, k, mv, res.VersionID); v != nil {
+			return v
+		}
+		if g.Chance(1, 2) {
+			d.log("Head+GetObject(%s/%s)", b, k)
+			return d.verifyVersion("read", b, k, nil, g)
+		}
+		return nil
+	})
 }
 
 func contains(xs []string, x string) bool {
@@ -736,7 +852,12 @@ func (c *c21Client) step(allowRestart bool) *Violation {
 	if d.Think != nil {
 		c.sys.rc.S.Sleep(d.Think())
 	}
-	k := g.Int(30)
+	k := g.Int(36)
+	if k >= 30 {
+		// plain writes of one key and, while they are queued, a write of the
+		// same key that the outbox executes synchronously
+		return c.syncBehindQueue()
+	}
 	if allowRestart && k >= 23 {
 		k = 29
 	}
@@ -1028,7 +1149,7 @@ func init() {
 	Register(&Scenario{
 		Prop: "C21", Name: "outbox-ryw-converge", Weight: 3,
 		Policy: c21Policy,
-		Rule:   "one client against the real outbox storage (own or shared SQLite database, lease 1-10 s) over a real metadatapart storage, the real worker/heartbeat goroutines on the simulated clock under a preempting schedule (the worker flushes at arbitrary points, think times from below to above the worker's pace); histories of bursts of queued writes without read-back (CreateBucket of a missing bucket, DeleteBucket of an empty bucket, PutObject with content type/metadata/tags/storage class, DeleteObject, DeleteObjects), reads (ListBuckets, ListObjects, Head+Get, also of deleted buckets) and, at low weight, synchronous operations that must order themselves behind queued entries (conditional put, conditional delete, copy, append, versioning change, versioned writes); only writes whose replay succeeds on the state produced by all earlier accepted writes are generated; worker-originated inner-storage calls fail before taking effect or (PutObject/DeleteObject) after taking effect at a per-run rate with 1-5 failures; oracles: every read equals the reference model (RYW), after the faults stop the outbox is empty within 4 leases + 90 s, then the INNER storage read directly equals the model (buckets, listings, bytes, content type, metadata, tags, class); non-trivial = at least one queued write and one read issued while entries were pending",
+		Rule:   "one client against the real outbox storage (own or shared SQLite database, lease 1-10 s) over a real metadatapart storage, the real worker/heartbeat goroutines on the simulated clock under a preempting schedule (the worker flushes at arbitrary points, think times from below to above the worker's pace); histories of bursts of queued writes without read-back (CreateBucket of a missing bucket, DeleteBucket of an empty bucket, PutObject with content type/metadata/tags/storage class, DeleteObject, DeleteObjects), reads (ListBuckets, ListObjects, Head+Get, also of deleted buckets) and, at low weight, synchronous operations that must order themselves behind queued entries (conditional put, conditional delete, copy, append, versioning change, versioned writes); in a sixth of the steps an episode on ONE key: 1-2 plain puts/deletes are accepted without read-back and immediately followed by a write of the same key that the outbox executes synchronously - PutObject with If-None-Match:*, with If-Match = the ETag of the last acknowledged put / the ETag observed before the episode / *, or a plain put after versioning was enabled for the bucket - whose success or rejection must be the one the model gives for the acceptance order (oracle ryw/sync-put-outcome-ignores-accepted-writes), read back only half of the time so that an older entry replayed after it shows in the drained state (reach counters probe.c21.sync_put_behind_queued_key.*); only writes whose replay succeeds on the state produced by all earlier accepted writes are generated; worker-originated inner-storage calls fail before taking effect or (PutObject/DeleteObject) after taking effect at a per-run rate with 1-5 failures; oracles: every read equals the reference model (RYW), after the faults stop the outbox is empty within 4 leases + 90 s, then the INNER storage read directly equals the model (buckets, listings, bytes, content type, metadata, tags, class); non-trivial = at least one queued write and one read issued while entries were pending",
 		Real:   c21Real, Stub: c21Stub,
 		Run: func(rc *RunCtx) (*Violation, error) { return runC21(rc, "faults") },
 	})
